@@ -246,8 +246,13 @@ def check(F, rep, tier):
         g = F.fn("crate::cli::utils::template::functions::" + nm)
         if not rep.anchor("R15.6", nm, g): continue
         rep.fn_seen(g)
+        g = mir.inlined(F, g, depth=3)        # get_length_arg / truncate_to_length style helpers are seen through
         sl = [(b2, t) for b2, t in g.calls() if "Index<std::ops::RangeTo<usize>>" in (t[1].get("full") or "")]
-        if not sl: rep.bad("R15.6", "no-length-bound:" + nm, "%s does not cut its result to `length`" % nm, g.where()); continue
+        if not sl:
+            other = [mir.callee(t) for b2, t in g.calls() if any((mir.callee(t) or "").endswith(x) for x in ("Iterator::take", "String::truncate", "str>::get", "::split_at", "::split_at_checked"))]
+            if other: rep.undecided("R15.6", "length-bound-other:" + nm, "%s bounds its result with %s, a form this rule does not evaluate" % (nm, other), g.where())
+            else: rep.bad("R15.6", "no-length-bound:" + nm, "%s does not cut its result to `length`" % nm, g.where())
+            continue
         for b2, t in sl:
             # s[..length] on the len > length edge, with `length` the template argument
             rng = None
